@@ -10,12 +10,15 @@ CONSTANTS MaxStack
 Reachable == {0, 2, 3, 4, 5}          \* no rule of the analysis yields POSSIBLY_UNSAFE; the order half covers it
 CliOpts == {"default", "print", "json", "print+json"}
 CmpOps == {"lt", "le", "gt", "ge", "eq", "ne"}
+\* how the file reaches the CLI: named on the command line, redirected standard input (seekable), or a pipe
+\* (standard input that cannot seek: the stack must still be read to its end)
+Channels == {"path", "stdin", "pipe"}
 
-VARIABLES kind, vec, opt, cell
-vars == <<kind, vec, opt, cell>>
-Init == \/ /\ kind = "faces" /\ opt \in CliOpts /\ cell = <<>>
+VARIABLES kind, vec, opt, cell, chan
+vars == <<kind, vec, opt, cell, chan>>
+Init == \/ /\ kind = "faces" /\ opt \in CliOpts /\ cell = <<>> /\ chan \in Channels
            /\ \E n \in 1..MaxStack : vec \in [1..n -> Reachable]
-        \/ /\ kind = "cmp" /\ vec = <<>> /\ opt = "default"
+        \/ /\ kind = "cmp" /\ vec = <<>> /\ opt = "default" /\ chan = "path"
            /\ \E a \in Sev, b \in Sev, o \in CmpOps : cell = <<a, b, o>>
 Next == UNCHANGED vars
 Spec == Init /\ [][Next]_vars
@@ -23,5 +26,5 @@ Spec == Init /\ [][Next]_vars
 \* what every face must say for a severity vector (the design of "one severity, many faces")
 CliRc(v) == IF \A i \in DOMAIN v : v[i] = 0 THEN 0 ELSE 1
 LoaderRaises(v, t) == v[1] > t
-Emit == PrintT(<<"CASE", ToJson([kind |-> kind, vec |-> vec, opt |-> opt, cell |-> cell])>>)
+Emit == PrintT(<<"CASE", ToJson([kind |-> kind, vec |-> vec, opt |-> opt, cell |-> cell, chan |-> chan])>>)
 =============================================================================
